@@ -15,6 +15,7 @@ import (
 	"google.golang.org/grpc/status"
 
 	"github.com/ory/keto/internal/check"
+	"github.com/ory/keto/internal/driver/config"
 	"github.com/ory/keto/internal/expand"
 	"github.com/ory/keto/internal/relationtuple"
 	"github.com/ory/keto/internal/schema"
@@ -201,9 +202,23 @@ func streamHFuzz(t *testing.T, o *Out) {
 			}
 		}
 	}
+	ncells := len(cells)
 	for i := 0; i < n; i++ {
+		// the whole table once in default mode, once in strict mode, then random cells with the
+		// mode changing every 100 cases
+		if i == ncells || (i > 2*ncells && i%100 == 0) || i == 2*ncells {
+			strict := i == ncells || (i > 2*ncells && (i/100)%2 == 1)
+			if err := env.reg.Config(env.ctx).Set(config.KeyNamespaces, map[string]any{
+				"location": "file://" + env.oplFile, "experimental_strict_mode": strict}); err != nil {
+				t.Fatal(err)
+			}
+			if _, err := env.reg.Config(env.ctx).NamespaceManager(); err != nil {
+				t.Fatal(err)
+			}
+			o.Count(fmt.Sprintf("strict-mode:%v", strict))
+		}
 		cell := cells[i%len(cells)]
-		if i >= len(cells) {
+		if i >= 2*len(cells) {
 			cell = cells[r.Intn(len(cells))]
 		}
 		id++
